@@ -36,9 +36,13 @@ class Transformation(ABC):
     applied to the whole rule.
     """
 
-    processing_item: "ProcessingItemBase" | None = field(init=False, compare=False, default=None)
+    processing_item: "ProcessingItemBase" | None = field(
+        init=False, compare=False, repr=False, default=None
+    )
 
-    _pipeline: "ProcessingPipeline" | None = field(init=False, compare=False, default=None)
+    _pipeline: "ProcessingPipeline" | None = field(
+        init=False, compare=False, repr=False, default=None
+    )
 
     @classmethod
     def from_dict(cls, d: dict[str, Any]) -> "Transformation":
@@ -107,7 +111,9 @@ class DetectionItemTransformation(PreprocessingTransformation):
     A detection item transformation also marks the item as unconvertible to plain data types.
     """
 
-    processing_item: "ProcessingItem" | None = field(init=False, compare=False, default=None)
+    processing_item: "ProcessingItem" | None = field(
+        init=False, compare=False, repr=False, default=None
+    )
 
     @abstractmethod
     def apply_detection_item(
